@@ -539,6 +539,19 @@ def _memoised_members(cls):
             out.append((name, "decorator", name, [f]))
             continue
         if "property" not in decos:
+            # a plain method that keeps its result: `if self._x is not None: return self._x` ... `self._x = <result>; return self._x`
+            # (or the `is None: fill` form), for a method that takes no argument besides self
+            if len(f.node.args.args) == 1 and not f.node.args.kwonlyargs and not f.node.args.vararg and not name.startswith("__"):
+                tests = [t for t in own_nodes(f.node) if isinstance(t, ast.Compare) and isinstance(t.left, ast.Attribute) and _self_root(t.left)
+                         and len(t.ops) == 1 and isinstance(t.ops[0], (ast.Is, ast.IsNot)) and isinstance(t.comparators[0], ast.Constant)
+                         and t.comparators[0].value is None]
+                for t in tests:
+                    cache = t.left.attr
+                    stores = [x for x in own_nodes(f.node) if isinstance(x, ast.Attribute) and isinstance(x.ctx, ast.Store) and _self_root(x) and x.attr == cache]
+                    rets = [r for r in own_nodes(f.node) if isinstance(r, ast.Return) and r.value is not None and norm(r.value) == f"self.{cache}"]
+                    if stores and rets:
+                        out.append((name, "lazy attribute", cache, [f]))
+                        break
             continue
         for st in f.node.body:
             if isinstance(st, ast.If) and isinstance(st.test, ast.Compare) and isinstance(st.test.left, ast.Attribute) \
